@@ -221,11 +221,11 @@ Qed.
 
 Example c14_example_text :
   gen_content [nth 1 ex_rules w_paren] =
-  join nl (header_lines ++
+  join nl (app header_lines
     ["[Costco]";
      "match: regex(" ++ dq ++ "COSTCO(?!\s*GAS)" ++ dq ++ ") and amount > 200.0 and date >= " ++ dq ++ "2025-01-01" ++ dq
        ++ " and date <= " ++ dq ++ "2025-12-31" ++ dq;
-     "category: Food"; "subcategory: Groceries"; "tags: bulk, Warehouse"; ""])%list.
+     "category: Food"; "subcategory: Groceries"; "tags: bulk, Warehouse"; ""]).
 Proof. vm_compute. reflexivity. Qed.
 
 Example c14_example_unescape :
